@@ -51,6 +51,7 @@ type Prog struct {
 	fieldStoresOK bool
 	fnKeyMemo map[string]*ssa.Function
 	chanUsesMemo []chanUse
+	cnameMemo map[*ssa.Function]string
 	basesMemo map[*ssa.Alloc]map[ssa.Value]bool
 	noRet map[*ssa.BasicBlock]bool
 }
